@@ -55,11 +55,23 @@ def run(ctx):
         jobs.mc("neg_gap", cfg([(panel.S11, C12, C12)], dev=["UserLookupGap"], inv="OneSession"), expect="OneSession")
         jobs.mc("neg_getuser", cfg([(C11, C11, C12)], dev=panel.CODE_DEV + ["GetUserCheckThenAct"], init=(), caps={1: 2}, inv="OneSession"),
                 expect="OneSession")
+        # CloseSession that closes after the unlock (seeded change): the model must exceed the cap with it
+        jobs.mc("neg_closeafter", cfg([(R11, C11, C12)], dev=panel.CODE_DEV + ["CloseAfterUnlock"], inv="Cap", **anch), expect="Cap")
+        # exhaustion by usage: an upload round brings the credit to <= 0 (by up, by down, by both) or finds the user expired, the
+        # user is terminated, and connections arrive before / during / after that
+        exh = dict(nu=1, init=(A10,), caps={1: 2}, creds={1: 1}, traffic=2, admin=["expire"], maxadmin=1)
+        exprog = [(panel.U, panel.M, C11), (panel.U, panel.M, C11, C11)]
+        jobs.mc("exhaust", cfg(exprog, inv="NoStartWhenBroke NoDeadlock OwnedModuloDev CreditGhost NeverMore Conservation ExactAtRest", **exh),
+                timeout=3000, workers=8)
         # ---- behaviours
+        jobs.gen("exhaust", cfg(exprog, gates=["lockedQ", "collected", "closed", "resolved"], depth=16, **exh), simulate=n(120, 2000))
+        # the session being closed parked at SetTerminalMsg's log line (schedule point "closing"), arrivals meanwhile
+        jobs.gen("closeafter", cfg([(R11, C11, C12)], dev=panel.CODE_DEV + ["CloseAfterUnlock"], gates=["closing", "resolved"], depth=12, **anch),
+                 mode="hypo", keep=lambda b: panel.transient(b, panel.obs_dup) or panel.transient(b, lambda o: panel.obs_over_cap(o, [2, 1])))
         jobs.gen("arrivals3", cfg([(C11, C11, C12), (C11, C11, C11)], gates=GATES, depth=12, **anch))
         jobs.gen("reopen", cfg([(R11, C11, C11)], gates=GATES, depth=n(10, 14), **anch), simulate=n(120, None))
         jobs.gen("admin", cfg([(C11, C12, C21, C11), (R11, C11, C12, C21)], gates=GATES, depth=16, admin=ADMIN, maxadmin=2, **anch),
-                 simulate=n(150, 2000))
+                 simulate=n(100, 2000))
         jobs.gen("cap0", cfg([(C11, C11, C12)], caps={1: 0}, init=(), gates=GATES + ["closed"], depth=14), simulate=n(60, 600))
         if not q:
             jobs.gen("arrivals5", cfg([(C11, C11, C12, C12, C21), (C11, C11, C11, C11, C12)], gates=GATES, depth=18, **anch), simulate=2000)
@@ -74,12 +86,13 @@ def run(ctx):
                  mode="hypo", keep=lambda b: panel.has_dup(b) and panel.has_unowned(b, "getuser-check-then-act"))
         gens = jobs.gens()
         gens["getuser"] = panel.thin(gens["getuser"], n(60, 200), ctx.seed)
+        gens["closeafter"] = panel.thin(gens["closeafter"], n(60, 300), ctx.seed)
         for k in gens:
             if not gens[k] and not (k == "gap" and "UserLookupGap" not in panel.CODE_DEV):
                 raise lib.Inconclusive("TLC produced no behaviour for " + k)
         ngap = len(gens["gap"])
         gens["gap"] = panel.thin(gens["gap"], n(60, 10 ** 9), ctx.seed)
-        gens["arrivals3"] = panel.thin(gens["arrivals3"], n(250, 10 ** 9), ctx.seed)
+        gens["arrivals3"] = panel.thin(gens["arrivals3"], n(150, 10 ** 9), ctx.seed)
         allb = [b for k in sorted(gens) for b in gens[k]]
         res = panel.replay_behaviours(ctx, allb)
         panel.classify(ctx, res, KEYS)
